@@ -40,6 +40,7 @@ import OxiddModel.Bdd.DriverRcQ
 import OxiddModel.Ffi.DriverMulti
 import OxiddModel.Bcdd.DriverCountS
 import OxiddModel.Zbdd.DriverCountS
+import OxiddModel.Circuit.DriverFindCycle
 
 open OxiddModel
 
@@ -98,7 +99,8 @@ def protos : List (String × Proto) := [
   ("bdd-rcq", OxiddModel.Bdd.DriverRcQ.proto),
   ("capi-multi", OxiddModel.Ffi.Multi.proto),
   ("countcache-bcdd", OxiddModel.Bcdd.CountS.Driver.proto),
-  ("countcache-zbdd", OxiddModel.Zbdd.CountS.Driver.proto)
+  ("countcache-zbdd", OxiddModel.Zbdd.CountS.Driver.proto),
+  ("findcycle", OxiddModel.Circuit.FindCycleDriver.proto)
 ]
 
 def main (args : List String) : IO UInt32 := do
